@@ -28,6 +28,7 @@ PROP = "C17"
 INTS = [0, 1, 255, 256, 2**31 - 1, 2**31, 2**32 - 1, 2**32, 2**40, 2**63 - 1]
 STRS = ["", "a", "k" * 24, "cloudpickle.loads", "x" * 1000]
 NON_ASCII = "klüç"
+LONG_LENGTHS = [100, 255, 256, 257, 511, 512, 513, 1023, 1024, 1025, 4096, 65535, 65536, 70000]
 
 
 def struct_eq(a, b) -> bool:
@@ -114,6 +115,15 @@ def run_shm(acc: Acc):
                 alph.append(list(shm_api.DatasetStatus))
         for combo in itertools.product(*alph):
             shm_case(cname, dict(zip(fields, combo)), acc)
+        # one field at a time over a finer length scale (all other fields at a short base value): every string field of
+        # every class with lengths around 2^8, 2^9, 2^10, 2^16, and all printable ASCII characters
+        for f, t in fields.items():
+            if t != "str":
+                continue
+            base = {g: ("b" if u == "str" else 7 if u == "int" else shm_api.DatasetStatus.ready) for g, u in fields.items()}
+            for n in LONG_LENGTHS:
+                shm_case(cname, dict(base, **{f: ("e%d-" % n + "y" * n)[:n]}), acc)
+            shm_case(cname, dict(base, **{f: "".join(chr(c) for c in range(32, 127))}), acc)
         # out-of-domain: non-ascii strings must be rejected at encode time, negative ints too
         for f, t in fields.items():
             base = {g: ("a" if u == "str" else 1 if u == "int" else shm_api.DatasetStatus.ready) for g, u in fields.items()}
